@@ -442,6 +442,8 @@ def _merge_python_version_single_markers(
         full_version_marker = marker1
 
     normalized_specifier = _normalize_python_version_specifier(version_marker)
+    if normalized_specifier is None:
+        return None
 
     if merge_class is MultiMarker:
         merged = normalized_specifier & full_version_marker.specifier
@@ -454,7 +456,9 @@ def _merge_python_version_single_markers(
     return MarkerExpression.from_specifier("python_full_version", merged)
 
 
-def _normalize_python_version_specifier(marker: MarkerExpression) -> BaseSpecifier:
+def _normalize_python_version_specifier(
+    marker: MarkerExpression,
+) -> BaseSpecifier | None:
     from dep_logic.specifiers import parse_version_specifier
 
     op, value = marker.op, marker.value
@@ -465,8 +469,12 @@ def _normalize_python_version_specifier(marker: MarkerExpression) -> BaseSpecifi
     if len(splitted) == 3 and splitted[2] == "0" and op != "~=":
         # python_version "X.Y.0" (as re-rendered from "X.Y.*") is just "X.Y"
         splitted.pop()
-    if len(splitted) > 2 or "*" in splitted:
+    if "*" in splitted or (op == "~=" and len(splitted) == 3 and splitted[2] == "0"):
         return marker.specifier
+    if len(splitted) > 2 or not all(s.isdigit() for s in splitted):
+        # python_version itself is always "X.Y": a longer or suffixed literal
+        # ("3.8.1") is not a bound on python_full_version, so do not merge.
+        return None
     if len(splitted) == 1:
         # python_version always has two segments: a bare "X" means "X.0"
         splitted.append("0")
